@@ -460,6 +460,50 @@ def directory_obligations(R, tier):
          bounded=f'{len(cases)} generated directories', replay=native_dir_replay)
 
 
+def checkpoint_case(args):
+    simname, perproc, cuts = args
+    import aurel
+    root = tempfile.mkdtemp(prefix='c11c_')
+    bad = []
+    try:
+        etgen.make_sim(root, simname, ('onefile', 'ungrouped'), restarts=[(0, [0, 4, 8, 16], 0)], shape=(6, 5, 4), cuts=(1, 1, 1), ghost=2, rls=(0,), variables=('alp', 'betax'))
+        truth = etgen.make_checkpoints(root, simname, 0, [0, 8, 16], perproc, cuts)
+        p = etgen.param_for(root, simname)
+        for its in ([8], [0, 16], [16, 8, 0]):
+            d = aurel.read_data(p, it=list(its), vars=['alpha', 'betax'], rl=0, usecheckpoints=True, verbose=False, skip_last=False)
+            for av, ev in (('alpha', 'alp'), ('betax', 'betax')):
+                for j, it in enumerate(sorted(its)):
+                    if av not in d or d[av][j] is None or not np.array_equal(d[av][j], truth[(ev, it)]):
+                        bad.append(f'simulation {simname!r}, per-process files {perproc}, cuts {cuts}, it={its}: {av} at it={it} is not the checkpointed data')
+            if not np.allclose(d['t'], [1.0 + 0.5 * it for it in sorted(its)]):
+                bad.append(f'simulation {simname!r}: checkpoint times {d["t"]} for it={its}')
+    except Exception as e:
+        bad.append(f'simulation {simname!r}, per-process files {perproc}, cuts {cuts}: raised {type(e).__name__}: {e}')
+    finally:
+        shutil.rmtree(root, ignore_errors=True)
+    return bad
+
+
+def checkpoint_cases():
+    return [(nm, pp, cuts) for nm in ('sim', 'orbit_8.run', 'it_16.it_0.x') for pp, cuts in ((False, (1, 1, 1)), (False, (2, 1, 1)), (True, (2, 2, 1)))]
+
+
+def checkpoint_obligations(R):
+    import multiprocessing as mp
+    import aurel.reading as Rm
+    R.under_contract(Rm.read_ET_checkpoints)
+    cases = checkpoint_cases()
+    t0 = time.time()
+    with mp.Pool(min(9, len(cases))) as pool:
+        res = pool.map(checkpoint_case, cases, chunksize=1)
+    bad = [b for r in res for b in r]
+    R.bounded.append(dict(function='aurel.read_data(usecheckpoints=True) on generated checkpoint files', bound=f'{len(cases)} directories: 3 simulation names (incl. names containing it_<n>.), one file / per-process files, 1-4 pieces, time levels 0 and 1, 3 requests'))
+    R.ob('reading.read_ET_checkpoints:returned arrays == checkpointed interior data (tl=0), for any simulation name', 'read_ET_checkpoints',
+         'refuted' if bad else 'bounded-ok', 'bounded-native', time.time() - t0, '; '.join(bad[:3]), bad[:6] or None,
+         bounded=f'{len(cases)} generated directories',
+         replay=lambda o: (lambda b: (bool(b), '; '.join(b[:3]) or 'generated checkpoint directories read back exactly'))([x for cse in checkpoint_cases()[:6] for x in checkpoint_case(cse)]))
+
+
 def native_dir_replay(o=None):
     bad = []
     cases = directory_cases('quick')
@@ -481,6 +525,7 @@ def run(R):
     join_chunks_obligations(R, R.tier)
     restart_selection_obligations(R, R.tier)
     directory_obligations(R, R.tier)
+    checkpoint_obligations(R)
     R.notes.append('an unsupported file name is ignored by parse_h5file/get_content (not raised); the property clause "an unsupported layout raises" is therefore only checked in the sense that no misplaced data is returned for the generated layouts')
     R.extra['explanation'] = ('fixij and ghost trimming proved for all sizes (z3); name maps exhaustive; restart selection on symbolic iteration values '
                               '(bounded counts); join_chunks and the I/O glue bounded on generated directories with injective cell encoding')
